@@ -146,11 +146,11 @@ class C03(Spec):
     exactness = ('E1 (integer-exact): colour groups, visiting-order check, expanded / reconstructed integer matrices, '
                  'selection made by mode=auto; the Coq validator must accept every bidirectional colouring produced '
                  'by the real MNCO_bidir')
-    shard = 250
+    shard = 1500
     impl_jobs = 8
     prelude = 'From Coq Require Import Uint63.\nOpen Scope uint63_scope.\n'
-    rule = ('exhaustive boolean patterns of every shape with nrows*ncols <= 12 (all of 1x1 .. 3x4, 4x3), 4x4 sampled '
-            '(quick) / exhaustive (thorough), structured random patterns up to 12x12 and up to 40x40; each through the '
+    rule = ('exhaustive boolean patterns of every shape up to 3x3 / 2x4 / 4x2 (quick; 3x4, 4x3, 4x4 sampled) and up to '
+            '4x4 = 65536 patterns (thorough), structured random patterns up to 12x12 and up to 40x40; each through the '
             'real _compute_coloring fwd, rev, auto x {direct, substitution} and the raw MNCO_bidir x {direct, '
             'substitution}, with an integer matrix of that pattern reconstructed through the real '
             '_expand_jac / colored_jac_iter / simul_coloring_jac_setter / _apply_subtractions and an arbitrary integer '
@@ -168,22 +168,20 @@ class C03(Spec):
         quick = tier == 'quick'
         for nr in range(1, 5):
             for nc in range(1, 5):
-                if nr * nc <= 12:
-                    for code in range(1 << (nr * nc)):
+                n = nr * nc
+                if n <= 9 or not quick:
+                    for code in range(1 << n):          # exhaustive
                         cases.append(pat_case(nr, nc, code, rng, zero_prob=0.05))
-        if quick:
-            for _ in range(1500):
-                cases.append(pat_case(4, 4, rng.getrandbits(16), rng))
-        else:
-            for code in range(1 << 16):
-                cases.append(pat_case(4, 4, code, rng))
-        for _ in range(500 if quick else 6000):
+                else:                                   # quick: 3x4, 4x3, 4x4 sampled
+                    for _ in range(1200):
+                        cases.append(pat_case(nr, nc, rng.getrandbits(n), rng, zero_prob=0.05))
+        for _ in range(300 if quick else 6000):
             nr, nc = rng.randrange(3, 13), rng.randrange(3, 13)
             cases.append(pat_case(nr, nc, structured_code(nr, nc, rng), rng))
-        for _ in range(30 if quick else 400):
+        for _ in range(12 if quick else 400):
             nr, nc = rng.randrange(13, 41), rng.randrange(13, 41)
             cases.append(pat_case(nr, nc, structured_code(nr, nc, rng), rng))
-        for _ in range(100 if quick else 1500):
+        for _ in range(80 if quick else 1500):
             cases.append(totals_case(rng))
         for _ in range(30 if quick else 300):
             nr, nc = rng.randrange(1, 8), rng.randrange(1, 8)
@@ -217,22 +215,18 @@ class C03(Spec):
         return '(VB true)'
 
     def shrink(self, c):
+        # few candidates per round: every candidate builds two real Problems
         if c['kind'] == 'totals':
             if c.get('dv_scaler') is not None:
                 yield dict(c, dv_scaler=None)
-            if c.get('con_scaler') is not None and any(v != 1 for v in c['con_scaler']):
-                for k, v in enumerate(c['con_scaler']):
-                    if v != 1:
-                        s = list(c['con_scaler'])
-                        s[k] = 1
-                        yield dict(c, con_scaler=s)
             A = c['A']
-            for r in range(len(A)):
-                for k in range(len(A[r])):
-                    if A[r][k] not in (0, 1):
-                        B = [list(x) for x in A]
-                        B[r][k] = 1
-                        yield dict(c, A=B)
+            if any(v not in (0, 1) for r in A for v in r):
+                yield dict(c, A=[[1 if v else 0 for v in r] for r in A])
+            sc = c.get('con_scaler')
+            if sc is not None and sum(1 for v in sc if v != 1) > 1:
+                for k, v in enumerate(sc):
+                    if v != 1:
+                        yield dict(c, con_scaler=[v if j == k else 1 for j in range(len(sc))])
 
 
 def main(tier):
